@@ -952,11 +952,13 @@ def compare_model(model, final, outs):
 
 def shrink(impl, lines, modes, pred, budget=60, auditor=None):
     """delta-debug a failing script: pred(final, outs, orc, rc) -> True when the failure is still there"""
+    import time
     cur = list(lines)
     n = 2
     tries = 0
+    t0 = time.time()
     head = [l for l in cur if l.startswith("open") or l.startswith("db ")][: 1 + len(modes)]
-    while len(cur) > 3 and tries < budget:
+    while len(cur) > 3 and tries < budget and time.time() - t0 < 300:   # a failing call may cost the watchdog time of the harness each try
         chunk = max(1, len(cur) // n)
         reduced = False
         for st in range(0, len(cur), chunk):
